@@ -138,23 +138,48 @@ inductive DistinctChoice where
   | distinct | distinctOn | rowNumber
   deriving Repr, DecidableEq
 
-/-- the decision of `distinct` for one partitioned take; `frame` = the columns the whole pipeline ends with -/
-def distinctChoice (cfg : Cfg) (frame : List CId) (s e : Option Int) (partition : List CId) (sort : List CS) : DistinctChoice :=
+/-- what the pass knows about a transform besides its shape: the column ids `CidCollector` finds in it (`none`: the
+transform is neither a wrapped RQ transform nor a Join) and, for a Compute, the column it defines -/
+structure Info where
+  reads : Option (List CId)
+  defines : Option CId
+  deriving Repr, Inhabited, DecidableEq
+
+/-- the columns known after a transform: a Join brings in the columns of its relation, a Compute defines one -/
+def extendKnown (known : List CId) (t : Tr) (i : Info) : List CId :=
+  match t with
+  | .join _ cols _ => known ++ cols
+  | _ => match i.defines with
+    | some c => known ++ [c]
+    | none => known
+
+/-- `reads_only`: nothing that follows the take reads a column that was there before the take and is not in the partition
+(`known` grows by the columns later Computes define and later Joins bring in) -/
+def readsOnly (known : List CId) : List (Tr × Info) → Bool
+  | [] => true
+  | (t, i) :: rest =>
+    match i.reads with
+    | none => readsOnly known rest
+    | some rs => rs.all ((extendKnown known t i).contains ·) && readsOnly (extendKnown known t i) rest
+
+/-- the decision of `distinct` for one partitioned take; `frame` = the columns the whole pipeline ends with,
+`laterOk` = `readsOnly partition <the transforms after the take>` -/
+def distinctChoice (cfg : Cfg) (frame : List CId) (laterOk : Bool) (s e : Option Int) (partition : List CId) (sort : List CS) : DistinctChoice :=
   let takeOnlyFirst := s.getD 1 == 1 && e == some 1
-  if takeOnlyFirst && sort.isEmpty && sameElements frame partition then .distinct
+  if takeOnlyFirst && sort.isEmpty && (sameElements frame partition && laterOk) then .distinct
   else if cfg.supportsDistinctOn && e == some 1 then .distinctOn
   else .rowNumber
 
 /-- `distinct`: returns the new pipeline and the next free column id; `none` = "Invalid take arguments" -/
-def distinctGo (cfg : Cfg) (frame : List CId) : CId → List Tr → Option (List Tr × CId)
+def distinctGo (cfg : Cfg) (frame : List CId) : CId → List (Tr × Info) → Option (List Tr × CId)
   | next, [] => some ([], next)
-  | next, .take s e partition sort :: rest =>
+  | next, (.take s e partition sort, _) :: rest =>
     if partition.isEmpty then
       (distinctGo cfg frame next rest).map fun (r, n) => (.take s e partition sort :: r, n)
     else
       match asInt s, asInt e with
       | .ok s, .ok e =>
-        match distinctChoice cfg frame s e partition sort with
+        match distinctChoice cfg frame (readsOnly partition rest) s e partition sort with
         | .distinct => (distinctGo cfg frame next rest).map fun (r, n) => (.distinct :: r, n)
         | .distinctOn =>
           let so := if sort.isEmpty then [] else ascending partition ++ sort
@@ -162,9 +187,10 @@ def distinctGo (cfg : Cfg) (frame : List CId) : CId → List Tr → Option (List
         | .rowNumber =>
           (distinctGo cfg frame (next + 1) rest).map fun (r, n) => (rowNumberFilter next s e partition sort ++ r, n)
       | _, _ => none
-  | next, t :: rest => (distinctGo cfg frame next rest).map fun (r, n) => (t :: r, n)
+  | next, (t, _) :: rest => (distinctGo cfg frame next rest).map fun (r, n) => (t :: r, n)
 
-def distinct (cfg : Cfg) (next : CId) (p : List Tr) : Option (List Tr × CId) := distinctGo cfg (selectCols p) next p
+def distinct (cfg : Cfg) (next : CId) (p : List (Tr × Info)) : Option (List Tr × CId) :=
+  distinctGo cfg (selectCols (p.map (·.1))) next p
 
 /-! ### union -/
 
